@@ -636,6 +636,26 @@ def run_case(ctx):
                                             allow_u3=rng.random() < 0.1, wrap=0.45)
             if not any(_exp_never_returns(op.gate) for op in c.operations):
                 break
+        if ctx.index % 3 == 1:
+            # a plain gate that MISSES being its own adjoint by 1e-7 .. 1e-5: a built-in rotation / phase gate at an
+            # angle next to one at which it is self-adjoint (0, +-2 pi; pi for the phase gates), or a custom gate
+            # with a nearly hermitian numeric matrix.  An "is it self-adjoint?" test with numpy's default tolerances
+            # says yes, the adjoint says otherwise by a thousand times the tolerance granted here
+            ops = list(c.operations)
+            if rng.random() < 0.75:
+                pn = sorted(nm for nm, e in tab.items() if e["kind"] == "param" and e["nparams"] == 1 and e["nq"] <= n)
+                nm = rng.choice(pn)
+                base = rng.choice([0.0, 0.0, 2 * math.pi, -2 * math.pi] + ([math.pi, -math.pi] if nm in ("PHASE", "CPHASE") else []))
+                a = base + rng.choice([-1, 1]) * rng.uniform(1, 9) * 10.0 ** rng.choice([-6, -6, -7])
+                g, gd = tab[nm]["ref"](a), f"{nm}({a!r})"
+            else:
+                from ..gen import custom_near as CN
+
+                g, gd, _info = CN.near_structured_gate(rng, nprng, 1, f"NearH{ctx.index}", "hermitian")
+            ops.insert(rng.randint(0, len(ops)), g(*GC.rand_qubits(rng, g.num_qubits, n)))
+            c = Circuit(ops, n_qubits=c.n_qubits)
+            desc += f" + nearly self-adjoint {gd}"
+            ctx.mon.note("inverse:nearly-self-adjoint-plain-gate")
         ctx.describe(f"{cls} {desc}", _interesting(c))
         _inverse_checks(ctx, c, unitary_only)
         return
